@@ -621,16 +621,31 @@ func toDeleteNotification(n *pb.Notification, timestamp int64) *pb.Notification 
 		d.Delete = []*pb.Path{{Elem: prefix.GetElem(), Element: prefix.GetElement()}}
 	case len(prefix.GetElem()) > 0 || len(path.GetElem()) > 0:
 		// Build the path in a fresh slice: the prefix may be shared between
-		// notifications and must not be appended to in place.
+		// notifications and must not be appended to in place. A half that only
+		// uses the deprecated Element encoding is converted, so that the delete
+		// addresses the same index path the leaf is stored under.
 		elems := make([]*pb.PathElem, 0, len(prefix.GetElem())+len(path.GetElem()))
-		elems = append(elems, prefix.GetElem()...)
-		d.Delete = []*pb.Path{{Elem: append(elems, path.GetElem()...)}}
+		elems = append(elems, pathElems(prefix)...)
+		d.Delete = []*pb.Path{{Elem: append(elems, pathElems(path)...)}}
 	default:
 		elements := make([]string, 0, len(prefix.GetElement())+len(path.GetElement()))
 		elements = append(elements, prefix.GetElement()...)
 		d.Delete = []*pb.Path{{Element: append(elements, path.GetElement()...)}}
 	}
 	return d
+}
+
+// pathElems returns the elements of p, converting the deprecated Element
+// encoding when Elem is not used (as path.ToStrings does).
+func pathElems(p *pb.Path) []*pb.PathElem {
+	if len(p.GetElem()) > 0 {
+		return p.GetElem()
+	}
+	elems := make([]*pb.PathElem, 0, len(p.GetElement()))
+	for _, e := range p.GetElement() {
+		elems = append(elems, &pb.PathElem{Name: e})
+	}
+	return elems
 }
 
 func (t *Target) gnmiRemove(n *pb.Notification) []*ctree.Leaf {
